@@ -3,6 +3,7 @@ package main
 import (
 	"bytes"
 	"fmt"
+	"io"
 	"math"
 	"math/rand"
 
@@ -41,9 +42,21 @@ func cmpBytesImpl(a, b []byte) (res int, err error) {
 }
 
 func cmpSegImpl(a, b []byte) (res int, err error) {
+	return cmpSegFlavours(a, b, -1, -1, nil)
+}
+
+// the segmented route with independently chosen reader flavours on the two sides (-1 = bytes.Reader)
+func cmpSegFlavours(a, b []byte, fa, fb int, r *rand.Rand) (res int, err error) {
+	mk := func(data []byte, fl int) io.Reader {
+		if fl < 0 {
+			return bytes.NewReader(data)
+		}
+		rd, _ := mkReader(fl, data, false, r)
+		return rd
+	}
 	err = guard(func() error {
 		var e error
-		res, e = sb.Compare(sb.DecodeForCompare(bytes.NewReader(a)), sb.DecodeForCompare(bytes.NewReader(b)))
+		res, e = sb.Compare(sb.DecodeForCompare(mk(a, fa)), sb.DecodeForCompare(mk(b, fb)))
 		return e
 	})
 	return
@@ -264,6 +277,18 @@ func famCompare(dir string, seed int64, tier string) {
 		pairs = append(pairs, pair{a, b})
 	}
 	pairs = append(pairs, pair{nil, nil})
+	// a stream against itself extended by one more token, for every boundary token (a proper prefix sorts first,
+	// whatever the extra token is: Min, Max, end markers, ...)
+	seenKind := map[sb.Kind]int{}
+	for _, t := range alpha {
+		seenKind[t.Kind]++
+		if seenKind[t.Kind] > 2 {
+			continue
+		}
+		base := randTokens(r, 3)
+		pairs = append(pairs, pair{nil, []sb.Token{t}}, pair{[]sb.Token{t}, nil})
+		pairs = append(pairs, pair{base, append(append([]sb.Token{}, base...), t)}, pair{append(append([]sb.Token{}, base...), t), base})
+	}
 
 	for _, p := range pairs {
 		desc := "a=[" + descTokens(p.a) + "] b=[" + descTokens(p.b) + "]"
@@ -274,6 +299,15 @@ func famCompare(dir string, seed int64, tier string) {
 		s2, e2 := cmpBytesImpl(ea, eb)
 		s3, e3 := cmpSegImpl(ea, eb)
 		rep.Evaluations += 3
+		// the same route with differently fragmenting readers on the two sides must give the same answer
+		if len(ea)+len(eb) < 4000 {
+			fa, fb := r.Intn(len(readerFlavours)), r.Intn(len(readerFlavours))
+			s3b, e3b := cmpSegFlavours(ea, eb, fa, fb, r)
+			rep.Evaluations++
+			if classOf(e3b) != classOf(e3) || sgn(s3b) != sgn(s3) {
+				rep.violate("C07", "segmented-route-reader-dependent", fmt.Sprintf("DecodeForCompare over bytes.Reader gives %d (%v), over readers %q/%q gives %d (%v)", sgn(s3), e3, readerFlavours[fa], readerFlavours[fb], sgn(s3b), e3b), desc)
+			}
+		}
 		for _, t := range p.a {
 			rep.count("kind:" + kindClass(t.Kind))
 		}
